@@ -249,6 +249,58 @@ def run_listen(hist, p_add, p_rm, via_helpers, rm_mode='global', p_add2=None):
     return dict(viol=viol, obs=obs)
 
 
+class OneShot(Rec):
+    """a listener that stops listening to an object from inside the k-th notification it gets"""
+
+    def __init__(self, k, state):
+        Rec.__init__(self)
+        self.k = k
+        self.state = state
+        self.done = False
+
+    def __getattribute__(self, name):
+        attr = Rec.__getattribute__(self, name)
+        if not (name.startswith('circuit_') or name.startswith('stream_')):
+            return attr
+
+        def wrapped(obj, *a, **kw):
+            attr(obj, *a, **kw)
+            if not self.done and len(self.calls) >= self.k:
+                self.done = True
+                obj.unlisten(self)
+        return wrapped
+
+
+def run_selfremove(hist, k):
+    """two listeners; the first removes itself from the object while being notified (k-th call); the second, registered
+    after it, must not lose that notification or any other"""
+    viol = []
+    with World() as w:
+        impl = Impl(w)
+        one = OneShot(k, impl.state)
+        rec = Rec()
+        for l in (one, rec):
+            impl.state.add_circuit_listener(l)
+            impl.state.add_stream_listener(l)
+        exp = expansion(hist)
+        for i, (label, ev, line) in enumerate(hist):
+            before = len(rec.calls)
+            impl.event(ev, line)
+            got = rec.calls[before:]
+            if got != exp[i]:
+                kind = label.split('-', 1)[1].split('-')[0]
+                viol.append(('missing-notification' if len(got) < len(exp[i]) else 'extra-notification',
+                             kind + '/another-listener-unlistened-during-delivery',
+                             'event %d %r: an earlier-registered listener called unlisten() from inside its notification #%d; '
+                             'the other listener heard %r, reference %r' % (i, '%s %s' % (ev, line), k, got, exp[i])))
+                break
+        errs = w.errors()
+        if errs:
+            viol.append(('logged-error', errs[0][1], '%r' % (errs[:1],)))
+        obs = (tuple(rec.calls), len(one.calls))
+    return dict(viol=viol, obs=obs)
+
+
 def first_index(hist, pred):
     for i, (label, ev, line) in enumerate(hist):
         if pred(label):
@@ -328,6 +380,7 @@ def run_close(hist, obj, p_close, p_second, ack_first):
         cmd = 'CLOSECIRCUIT' if obj == 'circuit' else 'CLOSESTREAM'
         i_end = first_index(hist, lambda l: l.startswith(prefix) and ('CLOSED' in l or 'FAILED' in l))
         recs = []
+        waits = []
         target = [None]
         held = [False]
         for i, (label, ev, line) in enumerate(hist + (('END', None, None),)):
@@ -340,6 +393,9 @@ def run_close(hist, obj, p_close, p_second, ack_first):
                     if not ack_first:
                         impl.sim.hold_prefixes = [cmd]
                         held[0] = True
+                    if obj == 'circuit' and not waits:
+                        # somebody else waits for the same circuit to be gone while the close request is in flight
+                        waits.append((i, DRec(o.when_closed())))
                     d = o.close()
                     recs.append((i, DRec(d)))
                     impl.sim.pump()
@@ -370,6 +426,16 @@ def run_close(hist, obj, p_close, p_second, ack_first):
                              % (ri, i_end, obj)))
             elif i_end is None and n != 0:
                 viol.append(('close-completed-early', obj, 'object never reported gone'))
+        for ri, r in waits:
+            n = len(r.fires)
+            if n > 1:
+                viol.append(('wait-fired-twice', 'closed/with-close-in-flight', 'when_closed() requested before event %d fired %d times' % (ri, n)))
+            elif i_end is not None and n == 0:
+                viol.append(('wait-outcome', 'closed/with-close-in-flight/want-ok-got-pending',
+                             'when_closed() requested before event %d (just before close()) never completed although event %d reported the circuit gone'
+                             % (ri, i_end)))
+            elif i_end is None and n != 0:
+                viol.append(('wait-fired-early', 'closed/with-close-in-flight', 'circuit never reported gone'))
         sent = [c for c in impl.sim.commands if c.startswith(cmd)]
         if len(sent) < 1:
             viol.append(('close-command-missing', obj, 'no %s on the wire' % cmd))
@@ -409,6 +475,10 @@ def run_task(param, acc):
         labels = tuple(h[0] for h in hist)
         n = len(hist)
         if fam == 'listen':
+            total_calls = sum(len(c) for c in expansion(hist))
+            for k in range(1, total_calls + 1):
+                r = run_selfremove(hist, k)
+                rec_exec(acc, ('selfremove', labels, k), r, dict(fam='selfremove', tier=acc.tier, h=hi_idx, k=k), cost=n * 10 + k)
             for p_add in range(0, n + 1):
                 for p_rm in [None] + list(range(p_add + 1, n + 1)):
                     variants = [('global', None)]
@@ -460,6 +530,8 @@ def replay(p):
         r = run_listen(hist, p['p_add'], p['p_rm'], False, p.get('rm_mode', 'global'), p.get('p_add2'))
         if p.get('p_add2') is not None or p.get('rm_mode') == 'object':
             r['viol'] = [(c, f + ('/registered-twice' if p.get('p_add2') is not None else '/unlisten-on-object'), d) for c, f, d in r['viol']]
+    elif p['fam'] == 'selfremove':
+        r = run_selfremove(hist, p['k'])
     elif p['fam'] == 'waits':
         r = run_waits(hist, p['p1'], p['p2'], p['which'])
     else:
